@@ -13,30 +13,8 @@ handler model simulates the event-level model along every `LegalHostM` history (
 -/
 namespace LunaVerif.Device
 
-def legalEventM (c : DevConfig) (s : DevState) (x : Stim) : Bool :=
-  let s' := (stepM c s x).1
-  -- the other endpoints only answer tokens/data of transactions addressed to them
-  (x.foreign.isNone || (s'.tokEp != 0 && s'.tokPid != 0 &&
-      (match x.ev with | .token .. => true | .data .. => true | _ => false))) &&
-  (match x.ev with
-   | .token pid addr ep =>
-       isTokenPid pid && decide (addr < 128) && decide (ep < 16) &&
-       (pid != PID_SETUP || ep == 0) &&
-       -- no further data-stage IN after the host has ACKed a short packet
-       !(pid == PID_IN && addr == s.address && ep == 0 && s.stage == .dataIn && s.gDataDone)
-   | .data pid payload _ =>
-       isDataPid pid &&
-       (s.gPrevTok == PID_OUT || s.gPrevTok == PID_SETUP || (s.gPrevTok == PID_IN && s.tokPid == 0)) &&
-       (s.gPrevTok != PID_SETUP || pid == PID_DATA0) && payload.all (· < 256)
-   | .handshake pid => isHsPid pid && (s.gRespData || s.tokPid == 0)
-   | _ => true)
-
-def legalFromM (c : DevConfig) : DevState → List Stim → Bool
-  | _, [] => true
-  | s, x :: xs => legalEventM c s x && legalFromM c (stepM c s x).1 xs
-
-/-- `LegalHost` over the event-level model with the `start_position` advance by `max_packet_size`. -/
-def LegalHostM (c : DevConfig) (h : List Stim) : Bool := legalFromM c init h
+/-! `legalEventM`, `legalFromM`, `LegalHostM` live in Model/Device/ControlM.lean (core Lean only: the compiled driver
+`drv_dev` reports `legalEventM` for every event); they were moved there from this file unchanged. -/
 
 theorem legalEventM_64 (c : DevConfig) (hmp : c.maxPacket = 64) (s : DevState) (x : Stim) :
     legalEventM c s x = legalEvent c s x := by
